@@ -168,16 +168,42 @@ def template_case(chk, i):
     scal = ["int", "char", "double", "long long", "short", "void *", "float", "bool"]
     src = ""
     uses = []
-    for n in range(rng.randint(1, 3)):
-        src += TPL.format(n=n, extra=rng.choice(["", "char tail;", "T w[3];", "int *p;"]))
     body = []
     k = 0
-    for n in range(src.count("template")):
-        for a in rng.sample(scal, rng.randint(1, 3)):
-            body.append("W%d<%s> f%d;" % (n, a, k))
-            uses.append(("W%d<%s>" % (n, a), "f%d" % k))
+    extras = ["", "char tail;", "T w[3];", "int *p;"]
+    shape = rng.choice(["global", "global", "same-name-in-namespaces", "namespaced-arguments"])
+    if shape == "global":
+        for n in range(rng.randint(1, 3)):
+            src += TPL.format(n=n, extra=rng.choice(extras))
+        for n in range(src.count("template")):
+            for a in rng.sample(scal, rng.randint(1, 3)):
+                body.append("W%d<%s> f%d;" % (n, a, k))
+                uses.append(("W%d<%s>" % (n, a), "f%d" % k))
+                k += 1
+    elif shape == "same-name-in-namespaces":
+        # templates of the same name (different bodies) in different namespaces, instantiated with the same arguments: the instantiations
+        # are distinct types whose generated names may coincide once the namespace path is left out
+        nss = rng.sample(["small", "big", "outer::mid", "zz"], rng.randint(2, 3))
+        ex = rng.sample(extras, len(nss))
+        for ns_, e_ in zip(nss, ex):
+            parts = ns_.split("::")
+            src += "".join("namespace %s { " % p_ for p_ in parts) + TPL.format(n=0, extra=e_).strip() + " }" * len(parts) + "\n"
+        for a in rng.sample(scal, rng.randint(1, 2)):
+            for ns_ in nss:
+                body.append("%s::W0<%s> f%d;" % (ns_, a, k))
+                uses.append(("%s::W0<%s>" % (ns_, a), "f%d" % k))
+                k += 1
+    else:
+        # one template, arguments of the same name from different namespaces
+        src += TPL.format(n=0, extra=rng.choice(extras))
+        src += "namespace a { struct T { char c; }; }\nnamespace b { struct T { long long l; char c; }; }\nnamespace c { namespace a { struct T { short s[3]; }; } }\n"
+        for a in ["a::T", "b::T", "c::a::T"][:rng.randint(2, 3)]:
+            body.append("W0<%s> f%d;" % (a, k))
+            uses.append(("W0<%s>" % a, "f%d" % k))
             k += 1
     src += "struct Holder { %s };\n" % " ".join(body)
+    gate = rng.choice(["const", "test"])
+    nsflag = rng.random() < 0.5
     hdr = write(os.path.join(d, "t%d.hpp" % i), src)
     t = rng.choice(TARGETS)
     tab = write(os.path.join(d, "tt%d.cpp" % i), '#include "t%d.hpp"\nextern "C" { extern const unsigned long long vf_tab[] = { %s }; }\n' % (
@@ -188,7 +214,8 @@ def template_case(chk, i):
         return Verdict(INCONCLUSIVE, "c06-tpl-%d" % i, "clang table failed " + se[-200:])
     vals = [int(x.split()[-1]) for x in m.group(2).split(",")]
     o = os.path.join(d, "t%d.rs" % i)
-    rc, so, se, _ = sh([build.BINDGEN, hdr, "-o", o, "--", "--target=" + t, "-ffreestanding", "-std=c++17"], timeout=120, cpu=100)
+    tflags = (["--rust-target", "1.76"] if gate == "test" else []) + (["--enable-cxx-namespaces"] if nsflag else [])
+    rc, so, se, _ = sh([build.BINDGEN, hdr] + tflags + ["-o", o, "--", "--target=" + t, "-ffreestanding", "-std=c++17"], timeout=120, cpu=100)
     if rc != 0:
         return Verdict(INCONCLUSIVE, "c06-tpl-%d" % i, "bindgen failed " + se[-200:])
     inv = inventory(o)
@@ -210,8 +237,9 @@ def template_case(chk, i):
     if sorted(a for s, a in dv.values()) != aligns[:len(dv)] and len(aligns) == len(dv):
         problems.append("template instantiation alignments %s differ from clang's %s for %s" % (aligns, sorted(a for s, a in dv.values()), t))
     if problems:
-        return Verdict(VIOLATED, "c06-tpl-%d" % i, "\n".join(problems), files={"t.hpp": src, "bindings.rs": open(o).read(), "target": t})
-    return Verdict(HELD, "c06-tpl-%d" % i, obs={"template_instantiations_checked": len(dv), "target." + t: 1}, nontrivial=True, key="tpl-%d" % i)
+        return Verdict(VIOLATED, "c06-tpl-%d" % i, "\n".join(problems), files={"t.hpp": src, "bindings.rs": open(o).read(), "target": t, "flags.txt": " ".join(tflags)})
+    return Verdict(HELD, "c06-tpl-%d" % i, obs={"template_instantiations_checked": len(dv), "target." + t: 1, "template_shape." + shape: 1, "template_gate." + gate: 1,
+                                                 "template_namespaces_flag": int(nsflag)}, nontrivial=True, key="tpl-%d" % i)
 
 
 def run(chk):
